@@ -64,8 +64,20 @@ static bool plant(Plant &p, int cls, Rng &r) {
     int b = (int) r.below(p.doc.blocks.size());
     size_t bend = block_end_off(T, b);
     // most probe-based classes append " <probe>" at the end of block b
-    auto probe = [&](const ustr &txt, int code, std::function<void(DBlock &)> expect) {
+    auto probe = [&](const ustr &txt, int code, std::function<void(DBlock &)> expect, bool frame_ok = true) {
         ustr ins = (r.chance(1, 2) ? U("\n") : U(" ")) + txt;
+        // a third of the time (when block b has a top-level save frame) the defective construct goes at the end of that frame's content
+        const ItemSite *fs = (frame_ok && r.chance(1, 3)) ? pick([&](const ItemSite &x) { return x.item->kind == D_FRAME && !x.in_frame && x.block == b; }) : NULL;
+        if (fs) {
+            size_t term = (size_t) -1; for (size_t i = 0; i < T.size(); ++i) if (T[i].kind == T_FRAME_END && T[i].item == fs->ord) term = i;
+            if (term != (size_t) -1) {
+                size_t at = T[term].start; while (!ins.empty() && ins.back() == '\n') ins.pop_back();
+                ustr ins2 = ins + (txt.find(u'\n') != ustr::npos || r.chance(1, 2) ? U("\n") : U(" "));
+                insert_at(at, ins2); p.code = code; p.defect_off = at + 1; p.next_off = at + ins2.size();
+                DBlock tmp; tmp.items = fs->item->items; expect(tmp); fs->item->items = tmp.items; p.where = "frame_end"; g_stats.inc("c12.defect_in_frame");
+                return;
+            }
+        }
         // sometimes the defective construct is the very last thing in the input (nothing, not even a line terminator, follows)
         if (b + 1 == (int) p.doc.blocks.size() && r.chance(1, 4)) { p.text.erase(bend); while (!ins.empty() && ins.back() == '\n') ins.pop_back(); g_stats.inc("c12.defect_at_eof"); }
         insert_at(bend, ins); p.code = code; p.defect_off = bend + 1; p.next_off = next_token_start(T, 0, 0);   // fixed below
@@ -203,8 +215,8 @@ static bool plant(Plant &p, int cls, Rng &r) {
             probe(U("_k_probe {ab:5 'b':2}"), CIF_UNQUOTED_KEY, [&](DBlock &blk) { MValue t; t.kind = CIF_TABLE_KIND; t.entries.push_back({U("ab"), MValue::numb(U("5"))}); t.entries.push_back({U("b"), MValue::numb(U("2"))}); add_scalar(blk, "_k_probe", t); }); return true;
         case DF_TEXT_KEY: if (!v2) return false;
             probe(U("_k_probe {\n;k\n;:5 'b':2}"), CIF_MISQUOTED_KEY, [&](DBlock &blk) { MValue t; t.kind = CIF_TABLE_KIND; t.entries.push_back({U("k"), MValue::numb(U("5"))}); t.entries.push_back({U("b"), MValue::numb(U("2"))}); add_scalar(blk, "_k_probe", t); }); return true;
-        case DF_RESERVED_WORD: { static const char *const W[] = { "stop_", "global_", "data_", "STOP_", "Global_" }; probe(U(W[r.below(5)]), CIF_RESERVED_WORD, [](DBlock &) {}); return true; }
-        case DF_UNEXPECTED_TERM: probe(U("save_"), CIF_UNEXPECTED_TERM, [](DBlock &) {}); return true;
+        case DF_RESERVED_WORD: { static const char *const W[] = { "stop_", "global_", "data_", "STOP_", "Global_" }; probe(U(W[r.below(5)]), CIF_RESERVED_WORD, [](DBlock &) {}, false); return true; }
+        case DF_UNEXPECTED_TERM: probe(U("save_"), CIF_UNEXPECTED_TERM, [](DBlock &) {}, false); return true;
         case DF_NO_FRAME_TERM: {
             // drop the terminator of a frame that is the last item of its block
             const ItemSite *f = pick([&](const ItemSite &x) { return x.item->kind == D_FRAME && !x.in_frame && x.index + 1 == x.siblings->size(); }); if (!f) return false;
@@ -295,7 +307,7 @@ RunResult run_c12(const RunSpec &spec) {
         DumpOpts dop; dop.drop_empty_loops = p.accept_empty_loop_absent;
         std::string a = canon(want, dop), bb = canon(got, dop);
         if (a != bb && !p.alt_texts.empty()) {
-            for (auto &alt : p.alt_texts) { Doc d2 = p.doc; for (auto &blk : d2.blocks) for (auto &it : blk.items) if (it.kind == D_SCALAR && it.name == U("_d_probe")) it.value.text = alt; if (canon(expected_model(d2), dop) == bb) { a = bb; break; } }
+            for (auto &alt : p.alt_texts) { Doc d2 = p.doc; std::function<void(std::vector<DItem> &)> sub = [&](std::vector<DItem> &v) { for (auto &it : v) { if (it.kind == D_SCALAR && it.name == U("_d_probe")) it.value.text = alt; if (it.kind == D_FRAME) sub(it.items); } }; for (auto &blk : d2.blocks) sub(blk.items); if (canon(expected_model(d2), dop) == bb) { a = bb; break; } }
         }
         if (a != bb) DVIOLATE("recovered", DFN[cls], "content after recovery from %s differs from the documented recovery: %s; text: %s", DFN[cls], first_diff(a, bb).c_str(), snippet(p.text).c_str());
     } catch (Violation &v) { bad.reset(new Violation(v)); }
